@@ -65,6 +65,8 @@ _CHECK = None
 
 def _worker_init(cid):
     global _CHECK
+    import logging
+    logging.disable(logging.CRITICAL)        # library log output is not an observation
     repo.setup()
     _CHECK = load_check(cid)
 
@@ -128,6 +130,8 @@ def run_check(cid, tier, jobs=None):
     cid = cid.upper()
     seed = int(os.environ.get("VERIF_SEED", "0") or 0)
     t0 = time.time()
+    import logging
+    logging.disable(logging.CRITICAL)
     repo.setup()
     chk = load_check(cid)
     shards = list(chk.shards(tier))
@@ -144,7 +148,9 @@ def run_check(cid, tier, jobs=None):
             results.append(_worker_run(s))
     else:
         ctx = mp.get_context("fork")
-        with ctx.Pool(jobs, initializer=_worker_init, initargs=(cid,)) as pool:
+        # one fresh forked process per shard: library state touched by one shard (class-level caches,
+        # registries) can never leak into another, so every violation is reproducible from its case alone
+        with ctx.Pool(jobs, initializer=_worker_init, initargs=(cid,), maxtasksperchild=1) as pool:
             for r in pool.imap_unordered(_worker_run, shards, chunksize=1):
                 results.append(r)
     extras = []
@@ -168,9 +174,6 @@ def run_check(cid, tier, jobs=None):
         chk.finalize(tier, agg)
     # per-check vacuity guard: named counters that must be non-zero for the exploration to mean anything
     missing = [n for n in getattr(chk, "SANITY", ()) if not agg["observations"].get(n)]
-    if missing:
-        print(f"HARNESS-VACUOUS: {cid} counters never incremented: {missing}")
-        return 2
 
     # ---- classify violations -------------------------------------------------
     known = [k for k in load_known() if k.get("property") == cid and k.get("status") == "open"]
@@ -196,7 +199,7 @@ def run_check(cid, tier, jobs=None):
         ok = True
         for _ in range(2):
             try:
-                again = _replay_case(chk, json.loads(json.dumps(case)))
+                again = _replay_isolated(cid, json.loads(json.dumps(case)))
             except BaseException:
                 print("HARNESS-NONDETERMINISM: replay raised\n" + traceback.format_exc())
                 return 2
@@ -250,9 +253,13 @@ def run_check(cid, tier, jobs=None):
     with open(os.path.join(outdir, "evidence", f"{cid}.json"), "w") as f:
         json.dump(ev, f, indent=1, sort_keys=True)
         f.write("\n")
-    # vacuity self-check: many executions with < 2 distinct outcomes is a harness fault
-    if distinct < 2 or agg["evaluations"] < 1:
+    # vacuity self-check (only when nothing was found - a violation is never hidden behind exit 2):
+    # many executions with < 2 distinct outcomes, or a named coverage counter that stayed at zero
+    if rc == 0 and (distinct < 2 or agg["evaluations"] < 1):
         print(f"HARNESS-VACUOUS: {cid} evaluations={agg['evaluations']} distinct={distinct}")
+        return 2
+    if rc == 0 and missing:
+        print(f"HARNESS-VACUOUS: {cid} counters never incremented: {missing}")
         return 2
     print(f"{cid} tier={tier} evaluations={agg['evaluations']} states={agg['states']} "
           f"transitions={agg['transitions']} distinct={distinct} shards={agg['shards']} "
@@ -274,6 +281,24 @@ def _replay_case(chk, case):
         r = _worker_run(_tuplify(case["__shard__"]))
         return r.get("violations", []) if "harness_error" not in r else []
     return chk.replay(case)
+
+
+def _replay_worker(args):
+    cid, case = args
+    import io
+    import contextlib
+    buf = io.StringIO()
+    with contextlib.redirect_stdout(buf):
+        vs = _replay_case(load_check(cid), case)
+    return [{"key": v["key"], "message": v["message"]} for v in vs]
+
+
+def _replay_isolated(cid, case):
+    """Replay in a fresh forked process: replays must not see library state left behind by
+    other replays (or by in-process shards)."""
+    ctx = mp.get_context("fork")
+    with ctx.Pool(1, initializer=_worker_init, initargs=(cid,), maxtasksperchild=1) as pool:
+        return pool.apply(_replay_worker, ((cid, case),))
 
 
 def run_replay(cid, path):
